@@ -82,10 +82,10 @@ Fixpoint hfirst (key : str) (l : hdrs) : option str :=
   end.
 (* header_getter.fdel: r._headerlist[:] = [... if k.lower() != key] *)
 Definition hdel (key : str) (l : hdrs) : hdrs := filter (fun kv => negb (is_key key kv)) l.
-(* header_getter.fset with a str value: fdel, control-character check, append *)
+(* header_getter.fset with a str value: control-character check FIRST (a refused assignment leaves the
+   existing header in place), then fdel, append *)
 Definition hset (name v : str) (l : hdrs) : hdrs * option str :=
-  let l1 := hdel (lower name) l in
-  if has_crlf v then (l1, Some E_Value) else (l1 ++ [(name, v)], None).
+  if has_crlf v then (l, Some E_Value) else (hdel (lower name) l ++ [(name, v)], None).
 (* the same when the value is known to be free of CR/LF (str(int), "gzip") *)
 Definition hset_plain (name v : str) (l : hdrs) : hdrs := hdel (lower name) l ++ [(name, v)].
 (* ResponseHeaders.get / __getitem__: for k, v in reversed(items) *)
